@@ -435,3 +435,29 @@ def gen_dynamic_contract(rnd: random.Random, cfg: int, name: str = "DynTest"):
         m.dyn_bounds = (alens, blens)
         metas.append(m)
     return Contract(name, fns), metas, cli
+
+
+IMM_MAGIC = int.from_bytes(bytes(range(0xA0, 0xC0)), "big")  # stands for an immutable in the function bodies
+
+
+def gen_immutable_contract(rnd: random.Random):
+    """A test contract with an `immutable LIMIT` (written by the constructor into the code it returns; the artifact's
+    runtime code has the zero placeholder) and a storage variable set in the constructor:
+       check_below(x):   if (x < LIMIT) Panic(1)            fails for x < LIMIT
+       check_state(x):   if (x == LIMIT + slot0) Panic(1)   fails for exactly one x
+       check_never(x):   if (x & 1 == 2) Panic(1)           cannot fail"""
+    limit = rnd.choice([1, 42, 2**64, 2**255])
+    s0 = rnd.choice([0, 7, 1000])
+    ctor = [("PUSH", s0), ("PUSH", 0), "SSTORE"] if s0 else []
+    imm = [("PUSHN", 32, IMM_MAGIC)]
+    below = arg(0) + imm + ["SWAP1", "LT", ("PUSHL", "p_b"), "JUMPI", "STOP", ("LABEL", "p_b")] + panic(1)
+    state = imm + [("PUSH", 0), "SLOAD", "ADD"] + arg(0) + ["EQ", ("PUSHL", "p_s"), "JUMPI", "STOP", ("LABEL", "p_s")] + panic(1)
+    never = arg(0) + [("PUSH", 1), "AND", ("PUSH", 2), "EQ", ("PUSHL", "p_n"), "JUMPI", "STOP", ("LABEL", "p_n")] + panic(1)
+    c = Contract("ImmutableT", [Fn("setUp()", ["STOP"]), Fn("check_below(uint256)", below), Fn("check_state(uint256)", state), Fn("check_never(uint256)", never)],
+                 ctor=ctor, immutables={IMM_MAGIC: limit})
+    tgt = (limit + s0) % M256
+    grid = sorted({0, 1, (limit - 1) % M256, limit, (limit + 1) % M256, tgt, (tgt + 1) % M256, M256 - 1})
+    metas = [TestMeta("check_below(uint256)", 1, [grid], [((limit - 1) % M256,)], f"if(x<LIMIT={limit}) panic(1)", leaves={"panic1", "ok"}),
+             TestMeta("check_state(uint256)", 1, [grid], [(tgt,)], f"if(x==LIMIT+slot0={tgt}) panic(1)", leaves={"panic1", "ok"}),
+             TestMeta("check_never(uint256)", 1, [grid], [(0,)], "if(x&1==2) panic(1)", leaves={"ok"})]
+    return c, metas
